@@ -32,6 +32,8 @@ THEOREMS = [
     "C13.schema",
     "C13.addressed",
     "C13.addressed_end",
+    "C13.constraints",
+    "C13.constraints_untouched_without_type",
     "C13.computed_raises",
     "C13.identity_unsupported_raises",
 ]
@@ -54,6 +56,8 @@ TRUSTED = [
 RULE = (
     "exhaustive over dialect(7) x schema/no schema x subset of requested {type_, nullable, server_default, new_column_name, comment, "
     "autoincrement} (64) x subset of stated existing_{type, nullable, server_default, comment, autoincrement} (32) = 28672 presence patterns; "
+    "plus a deterministic constraint stream: every constraint-owning existing_type (5) x subset of the non-type attributes (32) x "
+    "with/without type_ x dialect x schema = 4480 calls judged by Spec.Alter.constraintOk; "
     "per pattern one draw of plain values (quick) plus draws mixing in identity/computed defaults, schema-type (Boolean/Enum CHECK) types, "
     "postgresql_using, empty comments and same-name renames; 2 initial columns per case for the spec (one adversarial: every unstated "
     "attribute differs from what a restating statement would reset it to). A case is non-trivial when at least one attribute is requested; "
@@ -264,6 +268,7 @@ class Batch:
                 continue
             schema_reported = False
             address_reported = False
+            constraints_reported = False
             for init in inits:
                 s = next(ans)
                 if "err" in s:
@@ -282,6 +287,13 @@ class Batch:
                     ctx.fail(inp, "address: a statement refers to the column by a name it does not have at that point of the script",
                              impl={"misaddressed": misaddressed(req, stmts), "stmts": impl_view["stmts"], "script": r["text"][:1500]},
                              tags=["address", dialect])
+                if not s.get("constraints", True) and not constraints_reported:
+                    constraints_reported = True
+                    bad = [st for st in impl_view["stmts"] if st["k"] in ("dropConstraint", "addConstraint")]
+                    ctx.fail(inp, "constraints: a type-bound CHECK constraint is dropped/added although no matching type change "
+                                  "was requested (the constraint belongs to the column's type, which the call did not ask to change)",
+                             impl={"constraint_stmts": bad, "stmts": impl_view["stmts"], "script": r["text"][:1500]},
+                             tags=["constraints", dialect])
                 if not s["exact"]:
                     # identity/computed defaults are outside the domain of C13.exact_partial; a spec failure there is
                     # still a property failure on the real code (matched against the PG identity known finding)
@@ -297,27 +309,61 @@ class Batch:
         self.cases.clear()
 
 
-def run(ctx, rng_name="main", draws=None):
+def constraint_stream(rng):
+    """deterministic coverage of the schema-type constraint handling: every existing_type that owns a CHECK constraint
+    (named / unnamed Boolean, native-or-not Enum) x every subset of the non-type attributes, without and with type_"""
+    other = [a for a in REQ_ATTRS if a != "type"]
+    for dialect in ai.DIALECTS:
+        for schema in (False, True):
+            for ex in ai.TYPE_KEYS_CK:
+                for requested in subsets(other):
+                    for with_type in (False, True):
+                        req_attrs = tuple(requested) + (("type",) if with_type else ())
+                        stated = ("ex_type",) + tuple(a for a in EX_ATTRS[1:] if rng.random() < 0.3)
+                        req = draw_values(rng, req_attrs, stated, schema, False)
+                        req["ex_type"] = ex
+                        if with_type:
+                            req["type"] = rng.choice(ai.TYPE_KEYS_COMMON + ai.TYPE_KEYS_CK)
+                        yield dialect, req
+
+
+def run(ctx, rng_name="main", draws=None, budget_s=None):
+    import time
+
+    t0 = time.time()
+
+    def over():
+        return budget_s is not None and time.time() - t0 > budget_s
+
     rng = ctx.rng(rng_name)
     b = Batch(ctx, rng_name)
     if draws is None:
         draws = (4, 10) if ctx.thorough else (1, 1)
     n_plain, n_exotic = draws
-    for dialect in ai.DIALECTS:
-        for schema in (False, True):
-            for requested in subsets(REQ_ATTRS):
-                for stated in subsets(EX_ATTRS):
+    complete = True
+    # the witnesses of the known findings (open and fixed) go through the same comparison and spec oracle
+    for w in WITNESSES.values():
+        b.add(w["dialect"], w["req"])
+    for dialect, req in constraint_stream(ctx.rng(rng_name + "/constraints")):
+        b.add(dialect, req)
+        ctx.hist("stream", "constraints")
+    # dialects interleaved innermost-last so that a time-capped search still sees every dialect
+    for requested in subsets(REQ_ATTRS):
+        if over():
+            complete = False
+            break
+        for stated in subsets(EX_ATTRS):
+            for dialect in ai.DIALECTS:
+                for schema in (False, True):
                     for _ in range(n_plain):
                         b.add(dialect, draw_values(rng, requested, stated, schema, False))
                     for _ in range(n_exotic):
                         b.add(dialect, draw_values(rng, requested, stated, schema, True))
-    # the witnesses of the known findings (open and fixed) go through the same comparison and spec oracle
-    for w in WITNESSES.values():
-        b.add(w["dialect"], w["req"])
     b.flush()
-    shrink_failures(ctx)
-    ctx.exhaustive = True
-    ctx.extra["presence_patterns"] = 7 * 2 * 64 * 32
+    shrink_failures(ctx, budget_s=15 if budget_s is None else min(15, budget_s))
+    if complete:
+        ctx.exhaustive = True
+        ctx.extra["presence_patterns"] = 7 * 2 * 64 * 32
 
 
 # ---------------------------------------------------------------------------------------------
@@ -340,16 +386,23 @@ def _verdict(ctx, dialect, req, init):
             return ("schema", i, s), r, stmts
         if not s.get("address", True):
             return ("address", i, s), r, stmts
+        if not s.get("constraints", True):
+            return ("constraints", i, s), r, stmts
         if not s["exact"]:
             return ("exact" if s["plain"] else "exact-nonplain", i, s), r, stmts
     return None, r, stmts
 
 
-def shrink_failures(ctx, per_key=1):
+def shrink_failures(ctx, per_key=1, budget_s=15):
+    import time
+
+    t0 = time.time()
     seen = {}
     extra = []
     for f in list(ctx.failures):
-        if classify(f) is not None:
+        if time.time() - t0 > budget_s:
+            break
+        if f.get("_shrunk_from") or "[shrunk]" in f["what"] or classify(f) is not None:
             continue
         kind = f["what"].split(":")[0]
         dialect = f["input"]["dialect"]
@@ -458,7 +511,9 @@ def classify(failure):
 
 
 def search(ctx):
-    run(ctx, rng_name="search", draws=(2, 3))
+    # only reached when the correspondence / a proof is broken and the main run found no failing input:
+    # one more pass with fresh values, capped at 20 s (every dialect is visited within the cap)
+    run(ctx, rng_name="search", draws=(1, 1), budget_s=20)
 
 
 def replay(ctx, case):
